@@ -108,7 +108,7 @@ class SexpError(Exception):
 
 
 def read_sexp(text):
-    """minimal S-expression reader: lists, "strings" (no escapes in EDIF besides %..%), atoms"""
+    """minimal S-expression reader: lists, "strings" (no escapes in EDIF besides %..%, see _decode), atoms"""
     pos = 0
     n = len(text)
     stack = [[]]
@@ -142,6 +142,30 @@ def read_sexp(text):
     return stack[0][0]
 
 
+def _decode(s):
+    """an EDIF string: %n n ..% (blank-separated integers, at least one) stands for the characters with
+    these codes (the writer escapes the double quote as %34% and the percent sign as %37%); any other
+    percent sign is an ordinary character. Hand-written scanner, nothing shared with spydrnet."""
+    out = []
+    i = 0
+    while i < len(s):
+        if s[i] == '%':
+            j = s.find('%', i + 1)
+            if j > i:
+                words = s[i + 1:j].replace('\t', ' ').split(' ')
+                words = [w for w in words if w != '']
+                def num(w):
+                    body = w[1:] if w[:1] in '+-' else w
+                    return body != '' and all(ch in DIGITS for ch in body)
+                if words and all(num(w) for w in words) and all(int(w) >= 0 for w in words):
+                    out.append(''.join(chr(int(w)) for w in words))
+                    i = j + 1
+                    continue
+        out.append(s[i])
+        i += 1
+    return ''.join(out)
+
+
 def _kw(x):
     return x[0].lower() if isinstance(x, list) and x and isinstance(x[0], str) else None
 
@@ -151,7 +175,7 @@ def _name_of(x):
     if isinstance(x, str):
         return x, None
     if _kw(x) == 'rename' and len(x) == 3 and isinstance(x[1], str) and isinstance(x[2], tuple):
-        return x[1], x[2][1]
+        return x[1], _decode(x[2][1])
     if _kw(x) == 'array' and len(x) >= 2:
         return _name_of(x[1])
     raise SexpError('bad name %r' % (x,))
@@ -267,8 +291,6 @@ def e2e(spec):
     stats = {'identifiers': 0, 'scopes': 0, 'renamed': 0}
     nl = build_netlist(spec)
     before = names_tree(nl)
-    all_names = spec_names(spec)
-    quote = any('"' in n for n in all_names)
     td = tempfile.mkdtemp(prefix='verif-names-')
     try:
         path = os.path.join(td, 'out.edf')
@@ -296,8 +318,7 @@ def e2e(spec):
             wnl, wlibs = written_tree(text)
         except SexpError as e:
             wlibs = None
-            bad.append({'sig': 'written-file-malformed|' + ('a-name-contains-a-double-quote' if quote else 'unexplained'),
-                        'text': str(e)})
+            bad.append({'sig': 'written-file-malformed|unexplained', 'text': str(e)})
         if wlibs is not None:
             def entry(e):
                 ident = e.data.get('EDIF.identifier')
@@ -305,7 +326,7 @@ def e2e(spec):
 
             def same(label, written, expected):
                 if written != expected:
-                    bad.append({'sig': 'written-differs-from-stored|' + ('a-name-contains-a-double-quote' if quote else 'unexplained'),
+                    bad.append({'sig': 'written-differs-from-stored|unexplained',
                                 'scope': label, 'written': repr(written)[:200], 'expected': repr(expected)[:200]})
                     return False
                 return True
@@ -340,16 +361,12 @@ def e2e(spec):
                                 if len(g) > 1 and any(g):
                                     bad.append({'sig': 'bus-net|identifier-of-a-wire-of-a-multi-wire-cable-collides', 'scope': where, 'id': k[:80]})
         # (c) the file must be readable again and show the original names
-        cable_names = [c for ls in spec['libs'] for ds in ls['defs'] for c, _ in ds['cables']]
         try:
             n2 = sdn.parse(path)
         except Exception as e:  # noqa
             n2 = None
             if not bad:
-                if isinstance(e, IndexError) and any(c.endswith('[') for c in cable_names):
-                    sig = 'reparse-fails|IndexError-and-a-cable-name-ends-with-an-open-bracket'
-                else:
-                    sig = 'reparse-fails|unexplained'
+                sig = 'reparse-fails|unexplained'
                 bad.append({'sig': sig, 'text': '%s: %s' % (type(e).__name__, str(e)[:200])})
             else:
                 stats['reparse_failed_after_reported_failure'] = 1
